@@ -57,6 +57,22 @@ fn main() {
                 }
             }
         }
+        "librun" => {
+            // internal: dsverif librun <file> - the library run of a script file with the default environment
+            // (real stdout), as a process of its own so that children it starts write to the same captured stream
+            if args.len() < 3 {
+                usage();
+            }
+            let mut ctx = duckscript::types::runtime::Context::new();
+            duckscriptsdk::load(&mut ctx.commands).expect("sdk load");
+            match duckscript::runner::run_script_file(&args[2], ctx, None) {
+                Ok(_) => std::process::exit(0),
+                Err(e) => {
+                    println!("Error: {}", e);
+                    std::process::exit(1)
+                }
+            }
+        }
         "probe-cycle" => {
             // internal: dsverif probe-cycle <dir> <len> <style>
             if args.len() < 5 {
